@@ -480,7 +480,12 @@ func genC05CLI(t *rapid.T) c05CLICase {
 	})
 	c.Steps = append([]c05CLIStep{{Kind: "new"}, {Kind: "comment"}, {Kind: "comment"}}, rapid.SliceOfN(one, 2, 10).Draw(t, "steps")...)
 	// the shape of interest: times above the clock are stored locally, the clock files disappear, a write follows
-	c.Steps = append(c.Steps, c05CLIStep{Kind: "peeredit", Jump: rapid.IntRange(3, 400).Draw(t, "pjump")}, c05CLIStep{Kind: "pull"},
+	c.Steps = append(c.Steps, c05CLIStep{Kind: "peeredit", Jump: rapid.IntRange(3, 400).Draw(t, "pjump")}, c05CLIStep{Kind: "pull"})
+	if rapid.IntRange(0, 2).Draw(t, "badRef") == 0 {
+		// a reference under refs/bugs/ that is not a bug (damaged, or written by something else), listed first or last
+		c.Steps = append(c.Steps, c05CLIStep{Kind: "badref", Which: rapid.IntRange(0, 1).Draw(t, "badWhere")})
+	}
+	c.Steps = append(c.Steps,
 		c05CLIStep{Kind: "delclocks", Which: rapid.IntRange(-1, 1).Draw(t, "lastWhich")},
 		c05CLIStep{Kind: rapid.SampledFrom([]string{"new", "comment"}).Draw(t, "lastWrite"), Bug: rapid.IntRange(0, 4).Draw(t, "lastBug")})
 	return c
@@ -525,7 +530,7 @@ func runC05CLI(tb report.TB, rep *report.Reporter, c c05CLICase) {
 	}
 	ids := func(dir string) []string { return strings.Fields(RunCLI(dir, "bug", "-f", "id").Out) }
 	var kinds []string
-	lossAfterMerge, merged := false, false
+	lossAfterMerge, merged, badRef := false, false, false
 	for i, s := range c.Steps {
 		kinds = append(kinds, s.Kind)
 		switch s.Kind {
@@ -550,6 +555,18 @@ func runC05CLI(tb report.TB, rep *report.Reporter, c c05CLICase) {
 				RunCLI(peerDir, "bug", "new", "-t", "peer bug", "-m", "m", "--non-interactive")
 			}
 			RunCLI(peerDir, "push", "origin")
+			continue
+		case "badref":
+			tree := strings.TrimSpace(RunGit(host, "hash-object", "-t", "tree", "-w", "--stdin").Out)
+			cm := RunGit(host, "-c", "user.name=x", "-c", "user.email=x@example.org", "commit-tree", tree, "-m", "not a bug")
+			name := strings.Repeat("0", 64)
+			if s.Which == 1 {
+				name = strings.Repeat("f", 64)
+			}
+			if res := RunGit(host, "update-ref", "refs/bugs/"+name, strings.TrimSpace(cm.Out)); cm.Code != 0 || res.Code != 0 {
+				tb.Fatalf("harness: bad ref: %s %s", cm.Out, res.Out)
+			}
+			badRef = true
 			continue
 		case "delclocks":
 			dir := filepath.Join(host, ".git", "git-bug", "clocks")
@@ -589,7 +606,9 @@ func runC05CLI(tb report.TB, rep *report.Reporter, c c05CLICase) {
 			}
 		}
 		where := fmt.Sprintf("step #%d %s", i, s.Kind)
-		if res.Code != 0 && (s.Kind == "new" || s.Kind == "comment") {
+		// with a reference that cannot be read under refs/bugs/ a command may refuse to run (lost clocks cannot be
+		// rebuilt): refusing is fine, writing below the stored times is not
+		if res.Code != 0 && (s.Kind == "new" || s.Kind == "comment") && !badRef {
 			if fail("command-fails/"+s.Kind+"/"+Normalize(lastLine(res.Out)), where+": "+res.Out) {
 				return
 			}
@@ -635,13 +654,13 @@ func runC05CLI(tb report.TB, rep *report.Reporter, c c05CLICase) {
 		}
 		_ = repo.Close()
 		// and the repository can read back what it wrote
-		if out := RunCLI(host, "bug"); out.Code != 0 {
+		if out := RunCLI(host, "bug"); out.Code != 0 && !badRef {
 			if fail("cannot-read-back/"+Normalize(lastLine(out.Out)), out.Out) {
 				return
 			}
 		}
 	}
-	rep.Case("cli|"+strings.Join(kinds, ","), lossAfterMerge, []string{"cli", fmt.Sprintf("clock-loss-after-merge:%v", lossAfterMerge)}, c)
+	rep.Case("cli|"+strings.Join(kinds, ","), lossAfterMerge, []string{"cli", fmt.Sprintf("clock-loss-after-merge:%v", lossAfterMerge), fmt.Sprintf("unreadable-reference-among-the-bugs:%v", badRef)}, c)
 }
 
 func TestC05CLI(t *testing.T) {
